@@ -1023,6 +1023,14 @@ class Interp:
             if isinstance(cur, list) and isinstance(st.op, ast.Add):
                 cur.extend(self.iterate(val))
                 return
+            from .npmodel import AbstractSparse
+
+            if isinstance(cur, AbstractSparse) and isinstance(st.op, (ast.Mult, ast.Div)):
+                # scipy.sparse scales in place for scalars (`K *= m` changes the object every alias refers to); other operands fall back
+                r = cur.__imul__(val) if isinstance(st.op, ast.Mult) else cur.__itruediv__(val)
+                if r is not NotImplemented:
+                    self.assign(t, r, env)
+                    return
             self.assign(t, self.binop(type(st.op), cur, val), env)
         elif isinstance(t, ast.Attribute):
             obj = self.eval(t.value, env)
@@ -1517,8 +1525,15 @@ class Interp:
         kwargs = {}
         for k in n.keywords:
             if k.arg is None:
-                kwargs.update(self.eval(k.value, env))
+                extra = self.eval(k.value, env)
+                for kk in extra:
+                    if kk in kwargs:
+                        # python: f(a=1, **{"a": 2}) is a TypeError
+                        raise InterpRaise(TypeError("got multiple values for keyword argument '%s'" % kk), self.where())
+                kwargs.update(extra)
             else:
+                if k.arg in kwargs:
+                    raise InterpRaise(TypeError("got multiple values for keyword argument '%s'" % k.arg), self.where())
                 kwargs[k.arg] = self.eval(k.value, env)
         return self.call(fn, args, kwargs)
 
